@@ -56,6 +56,25 @@ pub fn case_record_with(tier: Tier, seed: u64, idx: u64, fixed: Option<&Scenario
     if let Some(f) = fixed {
         s = f.clone();
     }
+    // A panic inside the history (revm's `unreachable!` on a transition sequence ParallelState should never
+    // have produced, a debug assertion, an arithmetic overflow) is a verdict about the history, not a
+    // harness crash: the same operations on revm's State are part of every case, so on the unchanged tree
+    // no history panics.
+    let scenario = s.clone();
+    match std::panic::catch_unwind(std::panic::AssertUnwindSafe(move || run_history(tier, seed, idx, s, rng))) {
+        Ok(record) => (record, scenario),
+        Err(payload) => {
+            let msg = payload.downcast_ref::<String>().cloned().or_else(|| payload.downcast_ref::<&str>().map(|m| m.to_string())).unwrap_or_else(|| "non-string panic payload".into());
+            let mut stats = CaseStats::default();
+            stats.nontrivial = true;
+            let finding = Finding { property: "C10", class: "history.panic".into(), detail: format!("the history panicked: {}", msg.chars().take(300).collect::<String>()) };
+            (CaseRecord { idx, findings: vec![finding], harness_errors: vec![], stats, sample: None, group: "history-differential" }, scenario)
+        }
+    }
+}
+
+fn run_history(tier: Tier, seed: u64, idx: u64, s: Scenario, mut rng: Prng) -> CaseRecord {
+    let _ = (tier, seed);
     let db_r = SimDb::from_scenario(&s, false, false);
     let db_p = Arc::new(SimDb::from_scenario(&s, false, false));
     // one case in eight runs without bundle updates (transitions are not recorded; extraction yields an
@@ -267,7 +286,7 @@ pub fn case_record_with(tier: Tier, seed: u64, idx: u64, fixed: Option<&Scenario
         stats.workload.push(("probe.history_three_or_more_blocks", 1));
     }
     let sample = (idx < 2).then(|| json!({"component": "history-differential", "profile": s.profile, "operations": ops_log}));
-    (CaseRecord { idx, findings, harness_errors: vec![], stats, sample, group: "history-differential" }, s)
+    CaseRecord { idx, findings, harness_errors: vec![], stats, sample, group: "history-differential" }
 }
 
 fn short(a: &Address) -> String {
